@@ -1,6 +1,18 @@
+"""usage: agent_prompt.py <property id> <scratch worktree> [extra text]  -> prompt for a fresh sub-agent on stdout"""
 import sys
 pid, wt, extra = sys.argv[1], sys.argv[2], (sys.argv[3] if len(sys.argv) > 3 else '')
-prop = open(f'/tmp/prop-{pid}.txt').read()
+import json, os
+def property_text(pid):
+    """Only what properties.jsonl says about the property: nothing of /verif's machinery."""
+    here = os.path.dirname(os.path.dirname(os.path.abspath(__file__)))
+    for line in open(os.path.join(here, 'properties.jsonl')):
+        d = json.loads(line)
+        if d['id'] == pid:
+            return (f"{d['id']} \u2014 {d['title']}\n\nStatement: {d['statement']}\n\nQuantified over: {d['quantifier']['text']}\n\n"
+                    f"Why the existing tests cannot settle it: {d['why_tests_cant']}\n\n"
+                    f"Code it is anchored in: {', '.join(d['anchors']['files'])}\n")
+    raise SystemExit(f'unknown property {pid}')
+prop = property_text(pid)
 print(f"""You are helping to evaluate a verification effort for the open-source Python library michelbierlaire/biogeme (maximum-likelihood estimation of discrete choice models; an expression DSL evaluated by an external C++ engine, cythonbiogeme). Your job is to act as a realistic source of regressions: produce source changes to biogeme that BREAK one stated semantic property while still importing/compiling and passing the existing test suite.
 
 You work ONLY inside your own scratch git worktree of the repository: {wt} (source under {wt}/src/biogeme, tests under {wt}/tests). Never touch /repo or /verif and do not read anything under /verif. Use the interpreter /venv/bin/python and make it import YOUR copy by setting PYTHONPATH={wt}/src (check with: PYTHONPATH={wt}/src /venv/bin/python -c "import biogeme; print(biogeme.__file__)").
